@@ -431,4 +431,82 @@ theorem deliveriesTo_exchange {α} (cb id : Nat) (dups : List α) (X : List Out)
   simp only [List.cons_append, List.flatten_cons, List.flatten_append, List.flatten_nil, List.append_nil,
     deliveriesTo_append, h1, List.singleton_append, deliveriesTo, List.nil_append, List.append_nil]
 
+/-! ### a static sufficient condition for "no two filters of the request match the same topic" -/
+
+open Mqtt.Spec.Match (matchLevels HASH PLUS) in
+/-- can two filters (as level lists) match a common name?  (over-approximation: `true` whenever they can) -/
+def overlapLevels : List (List UInt8) → List (List UInt8) → Bool
+  | [], [] => true
+  | [], g :: gs => g == [HASH] && gs.isEmpty
+  | f :: fs, [] => f == [HASH] && fs.isEmpty
+  | f :: fs, g :: gs =>
+    if f == [HASH] || g == [HASH] then true
+    else (f == [PLUS] || g == [PLUS] || f == g) && overlapLevels fs gs
+
+/-- two filters overlap: some topic name may match both -/
+def overlap (f g : Bytes) : Bool := overlapLevels (split f) (split g)
+
+open Mqtt.Spec.Match (matchLevels HASH PLUS) in
+theorem overlapLevels_sound (ns : List (List UInt8)) : ∀ (fs gs : List (List UInt8)),
+    matchLevels fs ns = true → matchLevels gs ns = true → overlapLevels fs gs = true := by
+  induction ns with
+  | nil =>
+    intro fs gs hf hg
+    cases fs with
+    | nil =>
+      cases gs with
+      | nil => rfl
+      | cons g gs => simpa [matchLevels, overlapLevels] using hg
+    | cons f fs =>
+      cases gs with
+      | nil => simpa [matchLevels, overlapLevels] using hf
+      | cons g gs =>
+        simp only [matchLevels, Bool.and_eq_true, beq_iff_eq] at hf
+        simp [overlapLevels, hf.1]
+  | cons n ns ih =>
+    intro fs gs hf hg
+    cases fs with
+    | nil => simp [matchLevels] at hf
+    | cons f fs =>
+      cases gs with
+      | nil => simp [matchLevels] at hg
+      | cons g gs =>
+        simp only [overlapLevels]
+        by_cases hfh : f = [HASH]
+        · simp [hfh]
+        · by_cases hgh : g = [HASH]
+          · simp [hgh]
+          · have hfb : (f == [HASH]) = false := by simpa using hfh
+            have hgb : (g == [HASH]) = false := by simpa using hgh
+            simp only [matchLevels, hfb, hgb, Bool.false_eq_true, ↓reduceIte, Bool.and_eq_true, Bool.or_eq_true,
+              beq_iff_eq] at hf hg
+            simp only [hfb, hgb, Bool.or_self, Bool.false_eq_true, ↓reduceIte, Bool.and_eq_true, Bool.or_eq_true,
+              beq_iff_eq]
+            refine ⟨?_, ih fs gs hf.2 hg.2⟩
+            rcases hf.1 with h | h
+            · exact Or.inl (Or.inl h)
+            · rcases hg.1 with h' | h'
+              · exact Or.inl (Or.inr h')
+              · exact Or.inr (h.trans h'.symm)
+
+/-- filters that do not overlap never match the same topic -/
+theorem overlap_sound (f g t : Bytes) (h : overlap f g = false) :
+    ¬ (topicMatches f t = true ∧ topicMatches g t = true) := by
+  rintro ⟨h1, h2⟩
+  have := overlapLevels_sound (split t) (split f) (split g) h1 h2
+  unfold overlap at h
+  rw [this] at h
+  cases h
+
+/-- the filters of a list are pairwise non-overlapping -/
+def nonOverlapping (l : List Bytes) : Bool := l.all (fun f => l.all (fun g => f == g || !overlap f g))
+
+theorem nonOverlapping_unique (l : List Bytes) (h : nonOverlapping l = true) (t : Bytes) :
+    ∀ f ∈ l, ∀ g ∈ l, topicMatches f t = true → topicMatches g t = true → f = g := by
+  intro f hf g hg h1 h2
+  simp only [nonOverlapping, List.all_eq_true, Bool.or_eq_true, beq_iff_eq, Bool.not_eq_true'] at h
+  rcases h f hf g hg with h | h
+  · exact h
+  · exact absurd ⟨h1, h2⟩ (overlap_sound f g t h)
+
 end Mqtt.Proofs.Client
